@@ -312,6 +312,9 @@ void FastFeature::toXml(QXmlStreamWriter *writer) const
 {
     writer->writeStartElement(QSL65("fast"));
     writer->writeDefaultNamespace(toString65(ns_fast));
+    if (tls0rtt) {
+        writer->writeAttribute(QSL65("tls-0rtt"), u"true"_s);
+    }
     for (const auto &mechanism : mechanisms) {
         writer->writeStartElement(QSL65("mechanism"));
         writer->writeCharacters(mechanism);
